@@ -670,3 +670,31 @@ def _rem_constraint(body, c, succ, rem_ids, tdc, rem_bb, cond_bb):
     if not truth:
         op = {"Lt": "Ge", "Ge": "Lt", "Gt": "Le", "Le": "Gt", "Eq": "Ne", "Ne": "Eq"}[op]
     return {"Eq": (k, k), "Lt": (0, k - 1), "Le": (0, k), "Gt": (k + 1, 10 ** 9), "Ge": (k, 10 ** 9)}.get(op)
+
+
+@rule("LEGAL-ARM", floor=30)
+def legal_arm(ctx):
+    """Inside a decoder's property loop, the arm of every legal property stores the value with its builder
+    setter on every path and has no error exit: acceptance does not depend on the value, on the order of
+    the properties or on which other properties were seen (validation happens once, after the loop)."""
+    out = []
+    for nm, (adt, body) in sorted(rx_decoders(ctx).items()):
+        pa = property_arms(body)
+        if pa is None:
+            continue
+        sw, arms, otherwise, others = pa
+        allentries = list(arms.values()) + ([otherwise] if otherwise is not None else [])
+        for v, entry in sorted(arms.items()):
+            if _region_rejects(body, entry, sw, allentries):
+                continue        # illegal property: rejected
+            reg = {x for x in body.reachable_from(entry, avoid=[o for o in allentries if o != entry] + [sw]) if body.dominates(entry, x)}
+            setters = [i for i in reg if body.term(i)["k"] == "call" and re.search(r"Builder::\w+$", callee_name(body.term(i)) or "") and not (callee_name(body.term(i)) or "").endswith("::build")]
+            errs = [x for x in reg if is_err_block(body, x)]
+            branches = [x for x in reg if len(body.succ(x)) > 1 and x != entry and body.term(x)["k"] == "switch" and body.term(x)["op"].get("k") != "const"]
+            # every path through the arm passes a setter: the first setter block dominates the arm's exits, i.e. no branch before it
+            early = [x for x in branches if not any(body.dominates(s_, x) for s_ in setters)]
+            ok = len(setters) >= 1 and not errs and not early
+            out.append(Inst("LEGAL-ARM", "%s:%s" % (nm, v), ok, body.site(entry),
+                            "arm %s: %d setter call(s), error exits: %s, value/state dependent branches before the store: %s" % (v, len(setters), [body.site(x) for x in errs] or "none", [body.site(x) for x in early] or "none"),
+                            "the property is stored unconditionally; no early rejection inside the loop"))
+    return out
